@@ -7,8 +7,8 @@ ACTIONS = ["Init", "Next"]
 
 META = {
     "category": "model_checking",
-    "text": "The RDATA layout of all 38 record types the library implements (plus OPT options and unknown types) is one table in Rdata.tla, transcribed from the RFCs, with generic compose / parse / length / canonical-form operators. TLC checks the table's own laws (parse inverts compose, length, canonical form lower-cases exactly the RFC 4034 6.2 / RFC 6840 5.1 names, trailing octets rejected, compressed input names) over boundary values per field kind with up to 2 (quick) / 3 (thorough) fields varied per value. Every explored value, its compressed-name renderings and five damaged variants are replayed through the real parsers (AllRecordData, ZoneRecordData, UnknownRecordData), plain and compressing composers, rdlen and compose_canonical_rdata; recorded runs on random values of every type up to the 65535-octet limit are validated by TLC against the table.",
-    "note": "Trusted: TLC, the transcription of the RFC layouts in Rdata.tla, the harness. Inputs that break only an RFC content rule (empty TXT, non-minimal type bitmap, unordered SvcParams, short ZONEMD digest, undefined IPSECKEY gateway type) may be accepted or rejected. Field identity between wire and presentation format / accessors is not checked (a parse/compose pair that swaps two equal-width fields consistently is invisible here). Values beyond the boundary domains are sampled, not enumerated. Semantic validation of individual EDNS option / SvcParam values is not checked beyond framing.",
+    "text": "The RDATA layout of all 38 record types the library implements (plus OPT options and unknown types) is one table in Rdata.tla, transcribed from the RFCs, with generic compose / parse / length / canonical-form operators. TLC checks the table's own laws (parse inverts compose, length, canonical form lower-cases exactly the RFC 4034 6.2 / RFC 6840 5.1 names, trailing octets rejected, compressed input names) over boundary values per field kind with up to 2 (quick) / 3 (thorough) fields varied per value. Every explored value, its compressed-name renderings and five damaged variants are replayed through the real parsers (AllRecordData, ZoneRecordData, UnknownRecordData), plain and compressing composers, rdlen and compose_canonical_rdata; the builders are bound to the table as small machines (RtypeBitmapBuilder add sequences, SvcParamsBuilder / from_values push orders, TxtBuilder operation sequences, AlpnBuilder), as are ProtoRrsig, the reference forwarding impls and flatten conversions; recorded runs on random values of every type up to the 65535-octet limit are validated by TLC against the table.",
+    "note": "Trusted: TLC, the transcription of the RFC layouts in Rdata.tla, the harness. Inputs that break only an RFC content rule (empty TXT, non-minimal type bitmap, unordered SvcParams, short ZONEMD digest, undefined IPSECKEY gateway type) may be accepted or rejected. Per-type new() constructors of plain field structs are not bound to the table (values are obtained by parsing, through the listed builders, or by conversion). Field identity between wire and presentation format / accessors is not checked (a parse/compose pair that swaps two equal-width fields consistently is invisible here). Values beyond the boundary domains are sampled, not enumerated. Semantic validation of individual EDNS option / SvcParam values is not checked beyond framing.",
     "technique": "TLA+ spec (Rdata.tla table) + TLC exhaustive over boundary domains; spec->impl case replay; impl->spec trace validation",
     "design_ref": "DESIGN.md §4 C05",
 }
